@@ -124,7 +124,7 @@ def run_once(sc, src, dst, fl, ids, k=1, extra_env=None, extra_args=(), select=N
     rr = world.run_sy([src, dst] + cli_of(fl) + list(extra_args), sc)
     sc.env.clear(); sc.env.update(old_env)
     after = world.snapshot(dst)
-    evs, nerr, badlines = [], 0, 0
+    evs, nerr, badlines, errpaths, summary = [], 0, 0, [], None
     for line in rr["out"].split("\n"):
         line = line.strip()
         if not line:
@@ -137,6 +137,11 @@ def run_once(sc, src, dst, fl, ids, k=1, extra_env=None, extra_args=(), select=N
                 nerr += 1
             continue
         t = ev.get("type")
+        if t == "error":
+            nerr += 1
+            errpaths.append(os.path.relpath(ev.get("path", ""), dst))
+        if t == "summary":
+            summary = ev
         if t in ("create", "update", "skip", "delete"):
             rel = os.path.relpath(ev["path"], dst)
             evs.append("%s:%s" % (t, ids.path(rel)))
@@ -146,7 +151,8 @@ def run_once(sc, src, dst, fl, ids, k=1, extra_env=None, extra_args=(), select=N
     case = "E %s %d %s %s %s" % (flags_str(fl), now_of(k), ",".join(srcs) or "-", ",".join(dsts) or "-", ",".join(extra) or "-")
     obs = "refused=%d exit=%s nerr=%d evs=%s dst=%s" % (refused, rr["rc"], nerr, ",".join(evs) or "-", dst_line(after, ids, run_start, k))
     raw = {"rc": rr["rc"], "stderr": rr["err"][-400:], "badlines": badlines, "before": dsnap, "after": after, "src": ssnap, "events": evs,
-           "timeout": rr["timeout"], "stdout_tail": rr["out"][-300:], "kept": [rel for _, rel, _ in kept]}
+           "timeout": rr["timeout"], "stdout_tail": rr["out"][-300:], "kept": [rel for _, rel, _ in kept],
+           "errpaths": errpaths, "summary": summary}
     return case, obs, raw
 
 
